@@ -17,10 +17,17 @@ pub struct FBuilt {
 }
 
 pub fn build_tx_world(rng: &mut StdRng, pow: &str, main_len: usize, forks: usize, max_depth: usize, max_txs: usize) -> FBuilt {
+    build_tx_world_remine(rng, pow, main_len, forks, max_depth, max_txs, 0.0)
+}
+
+/// `remine`: probability that a transaction of an abandoned block is mined again on the fork branch (same bytes,
+/// same hash, another block and possibly another position) -- what a real reorganisation does to most of them.
+pub fn build_tx_world_remine(rng: &mut StdRng, pow: &str, main_len: usize, forks: usize, max_depth: usize, max_txs: usize, remine: f64) -> FBuilt {
     let p = ChainParams { pow: pow.to_owned(), epoch_len: (3, 8), vary_difficulty: true };
     let scripts = gen::default_scripts();
     let mut chain = SimChain::new(pow, &scripts);
     let mut tg = TxGen::new(scripts.len(), max_txs);
+    tg.remine = remine;
     let main = gen::extend_with_txs(&mut chain, 0, main_len, &p, rng, &mut tg);
     let mut leaves = vec![main];
     for _ in 0..forks {
@@ -511,7 +518,9 @@ fn rand_scenario(rng: &mut StdRng, sc: usize, out: Box<dyn std::io::Write>, kv: 
     let forks = if profile == "fork" { 1 } else { 0 };
     // fork depth below, at and above last-N
     let depth = rng.gen_range(1..=(last_n as usize + 2)).min(main_len - 1);
-    let built = build_tx_world(rng, pow, main_len, forks, depth, 3);
+    // (fork profile, two scenarios out of three: transactions of the abandoned blocks are mined again on the fork)
+    let remine = if profile == "fork" && sc % 3 != 0 { 0.6 } else { 0.0 };
+    let built = build_tx_world_remine(rng, pow, main_len, forks, depth, 3, remine);
     let cfg = Config { last_n, max_outbound: npeers as u32, interval, blocks_in_transit: rng.gen_range(1..=4), ..Default::default() };
     let leaves = built.leaves.clone();
     let leaf = leaves[0];
@@ -702,8 +711,11 @@ fn rand_scenario(rng: &mut StdRng, sc: usize, out: Box<dyn std::io::Write>, kv: 
             _ => {
                 match rng.gen_range(0..4) {
                     0 | 1 => {
+                        // (a transaction that is mined on two branches has two world ids: not asked for by hash)
                         let t = rng.gen_range(0..ntx);
-                        env.rpc_fetch_tx(&mut sim, t);
+                        if !sim.chain.has_twin(t) {
+                            env.rpc_fetch_tx(&mut sim, t);
+                        }
                     }
                     2 => {
                         let b = rng.gen_range(0..sim.chain.blocks.len());
@@ -711,7 +723,9 @@ fn rand_scenario(rng: &mut StdRng, sc: usize, out: Box<dyn std::io::Write>, kv: 
                     }
                     _ => {
                         let t = rng.gen_range(0..ntx);
-                        env.rpc_get_tx(&mut sim, t);
+                        if !sim.chain.has_twin(t) {
+                            env.rpc_get_tx(&mut sim, t);
+                        }
                     }
                 }
             }
@@ -769,6 +783,8 @@ fn fork_scenario(rng: &mut StdRng, sc: usize, out: Box<dyn std::io::Write>, kv: 
     let scripts = gen::default_scripts();
     let mut chain = SimChain::new(pow, &scripts);
     let mut tg = TxGen::new(scripts.len(), 3);
+    // (two scenarios out of three: transactions of the abandoned blocks are mined again on branch B)
+    tg.remine = if sc % 3 != 0 { 0.6 } else { 0.0 };
     let a_tip = gen::extend_with_txs(&mut chain, 0, a_len, &p, rng, &mut tg);
     let fork_at = chain.ancestor_at(a_tip, (a_len - depth) as u64).unwrap();
     let b_tip = gen::extend_with_txs(&mut chain, fork_at, depth + rng.gen_range(1..=3), &p, rng, &mut tg);
